@@ -45,6 +45,23 @@ type ctState struct {
 	depth  int
 }
 
+// ctSafeDependency: dependency routines whose running time and memory accesses do not depend on the contents of
+// their arguments (documented as constant time, or straight-line word arithmetic / block functions over a length
+// that is public).  Everything else -- bytes.Equal, bytes.Compare, math/big, fmt, strings, encoding/hex ... -- must
+// not receive a secret.
+func ctSafeDependency(name string) bool {
+	for _, p := range []string{
+		"crypto/subtle.", "math/bits.", "encoding/binary.", "crypto/sha256.", "crypto/sha512.", "crypto/hmac.",
+		"gitlab.com/yawning/tuplehash.", "golang.org/x/crypto/sha3.", "runtime.KeepAlive", "io.ReadFull",
+		"invoke hash.Hash.", "invoke io.Reader.", "invoke io.Writer.", "bytes.Clone", "slices.Clone",
+	} {
+		if strings.HasPrefix(name, p) {
+			return true
+		}
+	}
+	return false
+}
+
 // ctRoot: the abstract object an address or aggregate value belongs to.
 func ctRoot(v ssa.Value) ssa.Value {
 	for i := 0; i < 64; i++ {
@@ -412,7 +429,30 @@ func (e *Engine) ctAnalyse(fn *ssa.Function, c *Contract, depth int) *ctState {
 					continue
 				}
 				if f == nil || f.Pkg == nil || !strings.HasPrefix(f.Pkg.Pkg.Path(), e.modPath) {
-					continue // dependency and dynamic calls: covered by the models listed in the evidence
+					// dependency and dynamic calls: a secret may only be handed to routines on the list of
+					// data-independent dependency code (trusted; listed in the evidence)
+					s.checks++
+					name := ""
+					switch {
+					case f != nil && f.Pkg != nil:
+						name = f.Pkg.Pkg.Path() + "." + f.Name()
+					case f != nil:
+						name = f.String()
+					case cc.IsInvoke():
+						name = "invoke " + cc.Value.Type().String() + "." + cc.Method.Name()
+					default:
+						name = "dynamic call " + cc.Value.String()
+					}
+					if _, isBuiltin := cc.Value.(*ssa.Builtin); isBuiltin || ctSafeDependency(name) {
+						continue
+					}
+					for _, a := range args {
+						if secretArg(a) {
+							report("ct:callee", x.Pos(), "a secret is passed to "+name+", which is not on the list of data-independent dependency routines")
+							break
+						}
+					}
+					continue
 				}
 				s.checks++
 				if cal == nil || !cal.CT {
